@@ -98,6 +98,16 @@ def run_witness(w):
         finally:
             stepper.close()
         return outcome == 'budget'
+    if kind == 'encode_must_reject':
+        # reproduces when an out-of-constraint value is NOT rejected with ConstraintsError
+        s = _compile(w)
+        try:
+            s.encode(w['type'], core.unjson(w['value']), check_constraints=True)
+        except asn1tools.ConstraintsError:
+            return False
+        except Exception:
+            return True
+        return True
     if kind == 'text_expect':
         try:
             s = _compile(w)
